@@ -499,7 +499,8 @@ def inventory(pm, funcs):
     """{qualname: sorted container texts of its memo sites}"""
     out = {}
     for f in funcs:
-        s = sorted({site[0] for site in memo_sites(pm, f)})
+        s = sorted({site[0] for site in memo_sites(pm, f)} |
+                   {'%s @ %s' % (site[0], unparse(site[1])) for site in memo_sites(pm, f)})
         if s:
             out[f.qualname] = s
     return out
@@ -555,7 +556,8 @@ def run(pm, ctx, rule, patterns, title=None):
         n += 1
         known = set(ref.get(q, []))
         for site in memo_sites(pm, f):
-            if site[0] in known:
+            keyed = [k for k in known if k.startswith(site[0] + ' @ ')]
+            if site[0] in known and (not keyed or '%s @ %s' % (site[0], unparse(site[1])) in keyed):
                 ctx.ok(rule, '%s: table %s as in the confirmed tree' % (f.short, site[0]), f.loc)
                 continue
             pr = analyse_site(pm, fp, f, site)
